@@ -126,6 +126,36 @@ def roundtrip_case(args) -> dict:
                     ("structure", f"description {short(d)}: structure after "
                      f"reopen differs: {fresh.dataset_structure!r} vs "
                      f"{want_struct!r}", d))
+            # == cannot tell True from 1 or 1 from 1.0: compare the JSON text
+            def strict(x):
+                return json.dumps(x, sort_keys=True, ensure_ascii=False)
+
+            if strict(fresh.metadata.custom_metadata) != strict(d["md"]):
+                out["bad"].append(
+                    ("metadata-types", f"description {short(d)}: dataset "
+                     f"custom metadata reads back as "
+                     f"{strict(fresh.metadata.custom_metadata)[:120]}", d))
+            if strict(fresh.dataset_structure.saved_data_description[0]
+                      .custom_metadata) != strict(d["amd"]):
+                out["bad"].append(
+                    ("metadata-types", f"description {short(d)}: attribute "
+                     f"custom metadata reads back as " + strict(
+                         fresh.dataset_structure.saved_data_description[0]
+                         .custom_metadata)[:120], d))
+            for s_ in fresh.shard_info_iterator("train"):
+                if d["smd"] and strict(s_.custom_metadata) != strict(
+                        d["smd"]):
+                    out["bad"].append(
+                        ("metadata-types", f"description {short(d)}: shard "
+                         f"custom metadata reads back as "
+                         f"{strict(s_.custom_metadata)[:120]}", d))
+                    break
+            if strict(fresh._dataset_info.model_dump(mode="json")) != strict(
+                    kept._dataset_info.model_dump(mode="json")):
+                out["bad"].append(
+                    ("description", f"description {short(d)}: reopened "
+                     f"description differs from the writer's (strict "
+                     f"comparison)", d))
             if fresh._dataset_info != kept._dataset_info:
                 out["bad"].append(
                     ("description", f"description {short(d)}: reopened "
